@@ -308,6 +308,9 @@ typedef struct chunk_rec_struct {
 typedef struct chunkinfo_t {
     int   attached; /* how many access records refer to this elt */
     int32 aid;      /* Access id of chunk table i.e. Vdata */
+    int32 file_id;  /* file id the element was opened through: every access
+                       record that shares this record was started through it
+                       (HIgetspinfo), so it is valid while 'attached' > 0 */
 
     /* chunked element format header  fields */
     int32    sp_tag_header_len; /* length of the special element header */
@@ -363,7 +366,7 @@ static int32 HMCPseek(accrec_t *access_rec, /* IN: access record to mess with */
                       int32     offset,     /* IN: seek offset */
                       int       origin /* IN: where we should calc the offset from */);
 
-static int32 HMCPchunkread(void *cookie,    /* IN: access record to mess with */
+static int32 HMCPchunkread(void *cookie,    /* IN: information record of the element */
                            int32 chunk_num, /* IN: chunk to read */
                            void *datap /* OUT: buffer for data */);
 
@@ -371,7 +374,7 @@ static int32 HMCPread(accrec_t *access_rec, /* IN: access record to mess with */
                       int32     length,     /* IN: number of bytes to read */
                       void     *data /* OUT: buffer for data */);
 
-static int32 HMCPchunkwrite(void       *cookie,    /* IN: access record to mess with */
+static int32 HMCPchunkwrite(void       *cookie,    /* IN: information record of the element */
                             int32       chunk_num, /* IN: chunk number */
                             const void *datap /* IN: buffer for data */);
 
@@ -925,6 +928,7 @@ HMCIstaccess(accrec_t *access_rec, /* IN: access record to fill in */
         if ((info = (chunkinfo_t *)malloc(sizeof(chunkinfo_t))) == NULL)
             HGOTO_ERROR(DFE_NOSPACE, FAIL);
 
+        info->file_id              = access_rec->file_id;
         info->seek_chunk_indices   = NULL;
         info->seek_pos_chunk       = NULL;
         info->seek_user_indices    = NULL;
@@ -1220,7 +1224,7 @@ HMCIstaccess(accrec_t *access_rec, /* IN: access record to fill in */
         mcache_filter(info->chk_cache, /* cache handle */
                       HMCPchunkread,   /* page-in routine */
                       HMCPchunkwrite,  /* page-out routine */
-                      access_rec /* object handle */);
+                      info /* object handle */);
 
         /* update chunk info data and file record info */
         info->attached = 1;
@@ -1401,6 +1405,7 @@ HMCcreate(int32 file_id,       /* IN: file to put chunked element in */
 
     info->attached             = 1;
     info->aid                  = FAIL;
+    info->file_id              = file_id;
     info->version              = _HDF_CHK_HDR_VER;      /* version 1 for now */
     info->flag                 = chk_array->chunk_flag; /* SPECIAL_COMP ? */
     info->cinfo                = NULL;
@@ -1725,7 +1730,7 @@ HMCcreate(int32 file_id,       /* IN: file to put chunked element in */
     mcache_filter(info->chk_cache, /* cache handle */
                   HMCPchunkread,   /* page-in routine */
                   HMCPchunkwrite,  /* page-out routine */
-                  access_rec /* object handle */);
+                  info /* object handle */);
 
     ret_value = access_aid;
 
@@ -2557,12 +2562,11 @@ AUTHOR
    -GeorgeV - 9/3/96
 --------------------------------------------------------------------------- */
 static int32
-HMCPchunkread(void *cookie,    /* IN: access record to mess with */
+HMCPchunkread(void *cookie,    /* IN: information record of the chunked element */
               int32 chunk_num, /* IN: chunk to read */
               void *datap /* OUT: buffer for data */)
 {
-    accrec_t    *access_rec = (accrec_t *)cookie; /* access record */
-    chunkinfo_t *info       = NULL;               /* information record for this special data elt */
+    chunkinfo_t *info       = (chunkinfo_t *)cookie; /* information record for this special data elt */
     CHUNK_REC   *chk_rec    = NULL;               /* chunk record */
     TBBT_NODE   *entry      = NULL;               /* chunk node from TBBT */
     uint8       *bptr       = NULL;               /* pointer to data buffer */
@@ -2573,12 +2577,11 @@ HMCPchunkread(void *cookie,    /* IN: access record to mess with */
     int32        ret_value  = SUCCEED;
 
     /* Check args */
-    if (access_rec == NULL)
+    if (info == NULL)
         HGOTO_ERROR(DFE_ARGS, FAIL);
 
     /* set inputs */
     bptr       = (uint8 *)datap;
-    info       = (chunkinfo_t *)(access_rec->special_info);
     bytes_read = 0;
     read_len   = (info->chunk_size * info->nt_size);
 
@@ -2600,7 +2603,7 @@ HMCPchunkread(void *cookie,    /* IN: access record to mess with */
         if (chk_rec->chk_tag != DFTAG_NULL &&
             BASETAG(chk_rec->chk_tag) == DFTAG_CHUNK) { /* valid chunk in file */
             /* Start read on chunk */
-            if ((chk_id = Hstartread(access_rec->file_id, chk_rec->chk_tag, chk_rec->chk_ref)) == FAIL) {
+            if ((chk_id = Hstartread(info->file_id, chk_rec->chk_tag, chk_rec->chk_ref)) == FAIL) {
                 Hendaccess(chk_id);
                 HE_REPORT_GOTO("Hstartread failed to read chunk", FAIL);
             }
@@ -2902,12 +2905,11 @@ AUTHOR
    -GeorgeV - 9/3/96
 ---------------------------------------------------------------------------*/
 static int32
-HMCPchunkwrite(void       *cookie,    /* IN: access record to mess with */
+HMCPchunkwrite(void       *cookie,    /* IN: information record of the chunked element */
                int32       chunk_num, /* IN: chunk number */
                const void *datap /* IN: buffer for data */)
 {
-    accrec_t    *access_rec    = (accrec_t *)cookie; /* access record */
-    chunkinfo_t *info          = NULL;               /* chunked element information record */
+    chunkinfo_t *info          = (chunkinfo_t *)cookie; /* chunked element information record */
     CHUNK_REC   *chk_rec       = NULL;               /* current chunk */
     TBBT_NODE   *entry         = NULL;               /* node off of  chunk tree */
     uint8       *v_data        = NULL;               /* chunk table record i.e Vdata record */
@@ -2920,11 +2922,10 @@ HMCPchunkwrite(void       *cookie,    /* IN: access record to mess with */
     int          k; /* loop index */
 
     /* Check args */
-    if (access_rec == NULL)
+    if (info == NULL)
         HGOTO_ERROR(DFE_ARGS, FAIL);
 
     /* Set inputs */
-    info          = (chunkinfo_t *)(access_rec->special_info);
     write_len     = (info->chunk_size * info->nt_size);
     bytes_written = 0;
     bptr          = datap;
@@ -2949,7 +2950,7 @@ HMCPchunkwrite(void       *cookie,    /* IN: access record to mess with */
 
         /* Initialize chunk record */
         chkptr->chk_tag = DFTAG_CHUNK;
-        chkptr->chk_ref = Htagnewref(access_rec->file_id, DFTAG_CHUNK);
+        chkptr->chk_ref = Htagnewref(info->file_id, DFTAG_CHUNK);
 
         if (chkptr->chk_ref == 0) {
             /* out of ref numbers -- extremely fatal  */
@@ -2978,13 +2979,13 @@ HMCPchunkwrite(void       *cookie,    /* IN: access record to mess with */
         switch (info->flag & 0xff) /* only using 8bits for now */
         {
             case SPECIAL_COMP: /* Create compressed chunk */
-                if ((chk_id = HCcreate(access_rec->file_id, chk_rec->chk_tag, chk_rec->chk_ref,
+                if ((chk_id = HCcreate(info->file_id, chk_rec->chk_tag, chk_rec->chk_ref,
                                        info->model_type, info->minfo, info->comp_type, info->cinfo)) == FAIL)
                     HE_REPORT_GOTO("HCcreate failed to read chunk", FAIL);
                 break;
             default:
                 /* Start write on chunk */
-                if ((chk_id = Hstartwrite(access_rec->file_id, chk_rec->chk_tag, chk_rec->chk_ref,
+                if ((chk_id = Hstartwrite(info->file_id, chk_rec->chk_tag, chk_rec->chk_ref,
                                           write_len)) == FAIL)
                     HE_REPORT_GOTO("Hstartwrite failed to read chunk", FAIL);
                 break;
@@ -2992,7 +2993,7 @@ HMCPchunkwrite(void       *cookie,    /* IN: access record to mess with */
     }      /* not already in Vdata table */
     else { /* Already in table so start access */
         /* Start write on chunk */
-        if ((chk_id = Hstartwrite(access_rec->file_id, chk_rec->chk_tag, chk_rec->chk_ref, write_len)) ==
+        if ((chk_id = Hstartwrite(info->file_id, chk_rec->chk_tag, chk_rec->chk_ref, write_len)) ==
             FAIL)
             HE_REPORT_GOTO("Hstartwrite failed to read chunk", FAIL);
     }
